@@ -41,6 +41,7 @@ fn out_kind(o: &Out) -> &'static str {
         Out::Err { class: ErrClass::Syntax, .. } => "SyntaxErr",
         Out::Err { class: ErrClass::IllFormed, .. } => "IllFormedErr",
         Out::Err { .. } => "OtherErr",
+        Out::Raw(_) => "Raw",
     }
 }
 
